@@ -3,6 +3,7 @@ import random
 
 from .registry import bounded, replayer
 from . import pipeline as P
+from spec import wire as W
 
 
 @bounded('C02', 'decode-vs-reference')
@@ -37,3 +38,59 @@ def decode_vs_reference(tier, seed):
 def _replay(f):
     i = f['input']
     return P.compare_update(i['kind'], bytes.fromhex(i['body'])) is None
+
+
+@bounded('C02', 'rib-history')
+def rib_history(tier, seed):
+    """Adj-RIB-In after a HISTORY of UPDATEs = fold of the reference decodes (announces with the message's attributes and
+    next hop replace, withdraws remove)"""
+    import json
+    from spec.render import expected_update
+
+    rnd = random.Random(seed + 7)
+    rounds = 25 if tier == 'quick' else 400
+    fails, evals, distinct, samples = [], 0, set(), []
+    for r in range(rounds):
+        kind = rnd.choice(['ebgp4', 'ibgp2'])
+        asn4 = kind != 'ibgp2'
+        nb, neg = P.get_session(kind)
+        nb.rib.incoming.clear_cache()
+        want = {}
+        hist = []
+        attrs_fixed = W.origin(0) + W.as_path([65001], asn4) + W.next_hop()
+        for step in range(rnd.randint(2, 5)):
+            import socket
+
+            nh6 = socket.inet_pton(socket.AF_INET6, rnd.choice(['2001:db8::1', '2001:db8::2']))
+            p6 = rnd.choice(['2001:db8:a::', '2001:db8:b::'])
+            p4 = rnd.choice(['10.1.0.0', '10.2.0.0'])
+            attrs = attrs_fixed if rnd.random() < 0.6 else W.origin(0) + W.as_path([65001], asn4) + W.next_hop() + W.med(rnd.randint(0, 3))
+            parts = attrs
+            if rnd.random() < 0.7:
+                parts += W.mp_reach(2, 1, nh6, W.prefix6(p6, 48))
+            wd = W.prefix4(p4, 16) if rnd.random() < 0.3 else b''
+            nl = W.prefix4(p4, 16) if not wd and rnd.random() < 0.7 else b''
+            if rnd.random() < 0.2:
+                parts += W.mp_unreach(2, 1, W.prefix6(p6, 48))
+            body = W.update_body(wd, parts, nl)
+            hist.append(body.hex())
+            exp = expected_update(body, asn4)
+            for fam, items in exp['withdraw'].items():
+                for it in items:
+                    want.pop(it['nlri'], None)
+            for fam, by_nh in exp['announce'].items():
+                for nh, items in by_nh.items():
+                    for it in items:
+                        want[it['nlri']] = {'nexthop': nh, 'med': exp['attribute'].get('med')}
+            o = P.observe(kind, body, clear_rib=False)
+            if 'handler_error' in o or o.get('status') != 'ok':
+                fails.append({'what': f'history step failed: {str(o)[:200]}', 'input': {'kind': kind, 'history': hist}})
+                break
+        evals += 1
+        distinct.add(tuple(hist))
+        got = {k: {'nexthop': v['nexthop'], 'med': v['attributes'].get('med')} for k, v in (o.get('rib') or {}).items()}
+        if got != want:
+            fails.append({'what': 'Adj-RIB-In after the history differs from the fold of the reference decodes', 'input': {'kind': kind, 'history': hist}, 'expected': json.dumps(want, sort_keys=True), 'observed': json.dumps(got, sort_keys=True)})
+        if len(samples) < 2:
+            samples.append({'kind': kind, 'history': [h[:80] for h in hist]})
+    return {'evaluations': evals, 'distinct_nontrivial': len(distinct), 'bound': f'{rounds} histories of 2-5 UPDATEs over 2 IPv4 + 2 IPv6 prefixes, 2 next hops, 2 attribute sets', 'rule': 'one case = one history; distinct by the byte sequence', 'samples': samples, 'failures': fails}
